@@ -108,18 +108,24 @@ def chunk_iter(chunks):
         yield c
 
 
-def sym_align(deps, save="ALWAYS"):
-    """deps: list of [name, kind, layout(rows per chunk)]."""
+def sym_align(deps, save="ALWAYS", stair=False):
+    """deps: list of [name, kind, layout(rows per chunk)].  stair: the rows are a CONCRETE staircase of interleaved
+    rows of two kinds (row i of kind k = [4i + 2k, 4i + 2k + 3)): each trimming pass of Plugin.iter can move the common
+    end back by one row only, so long staircases need many passes; the chunk boundaries stay symbolic."""
     import strax
 
     deps = [(d[0], d[1], list(d[2])) for d in deps]
-    S = fresh_int("S", 0, H.T_MAX)
+    S = 0 if stair else fresh_int("S", 0, H.T_MAX)
     # rows per kind
     kind_rows = {}
     for name, kind, layout in deps:
         n = sum(layout)
         if kind in kind_rows:
             assert len(kind_rows[kind][0]) == n, "same-kind deps must have the same row count"
+            continue
+        if stair:
+            ki = len(kind_rows)
+            kind_rows[kind] = ([4 * i + 2 * ki for i in range(n)], [4 * i + 2 * ki + 3 for i in range(n)])
             continue
         ts, es = [], []
         for i in range(n):
@@ -190,15 +196,24 @@ def nat_align(params, model):
 
     deps = [(d[0], d[1], list(d[2])) for d in params["deps"]]
     save = params.get("save", "ALWAYS")
-    S = model["S"]
+    stair = params.get("stair", False)
+    S = 0 if stair else model["S"]
+    kinds_seen = []
+    for _, kind, _ in deps:
+        if kind not in kinds_seen:
+            kinds_seen.append(kind)
     iters, ends, nrows = {}, {}, {}
     for name, kind, layout in deps:
         b = [S] + [model[f"{name}_b{j}"] for j in range(1, len(layout) + 1)]
         chunks, r0 = [], 0
+        ki = kinds_seen.index(kind)
         for j, nr in enumerate(layout):
             a = np.zeros(nr, _dep_dtype(name, False))
             for q in range(nr):
-                a[q] = (model[f"{kind}_t{r0 + q}"], model[f"{kind}_e{r0 + q}"], r0 + q)
+                if stair:
+                    a[q] = (4 * (r0 + q) + 2 * ki, 4 * (r0 + q) + 2 * ki + 3, r0 + q)
+                else:
+                    a[q] = (model[f"{kind}_t{r0 + q}"], model[f"{kind}_e{r0 + q}"], r0 + q)
             r0 += nr
             chunks.append(strax.Chunk(data_type=name, data_kind=kind, dtype=_dep_dtype(name, False), run_id="0",
                                       start=b[j], end=b[j + 1], data=a))
@@ -277,7 +292,12 @@ def _grid(tier):
         g.append([["a", "k", la], ["b", "k", lb], ["c", "kc", lc]])
     if tier != "quick":
         g.append([["a", "ka", [1]], ["b", "kb", [1, 1]], ["c", "kc", [1]]])
-    return [dict(deps=d) for d in g]
+    out = [dict(deps=d) for d in g]
+    # concrete staircases of n + n interleaved rows of two kinds, symbolic chunk boundaries
+    for n in ((5, 6) if tier == "quick" else (5, 6, 8)):
+        for first in (n, n - 1, n - 2):
+            out.append(dict(deps=[["a", "ka", [first, n - first]], ["b", "kb", [n]]], stair=True))
+    return out
 
 
 OBLIGATIONS = [
@@ -291,6 +311,9 @@ OBLIGATIONS = [
 
 
 MUTANTS = [
+    dict(name="original F-C08b: trimming gives up after ten passes", file="strax/plugins/plugin.py",
+         old="                    while True:\n                        all_ends = [x.end for x in inputs.values()]",
+         new="                    for _pass in range(11):\n                        if _pass == 10:\n                            raise RuntimeError('unable to get time-consistent inputs after ten passes')\n                        all_ends = [x.end for x in inputs.values()]"),
     dict(name="original F-C08: trailing zero-duration chunk raises", file="strax/plugins/plugin.py",
          old="                    if buffer.end != _end or len(buffer) != _n:", new="                    if True:"),
     dict(name="other inputs fetched only while strictly shorter by one", file="strax/plugins/plugin.py",
